@@ -12,7 +12,7 @@ Minimality of the chosen size when an ordering step is present is NOT decided (l
 """
 import ast
 
-from ..normalize import inline, local_env, expand, canon, ctext, conjuncts, branch_values, merge_outcomes, Unknown, builders, comp_builder, _enclosing
+from ..normalize import inline, local_env, expand, canon, ctext, conjuncts, branch_values, merge_outcomes, Unknown, builders, comp_builder, _enclosing, eval_test, value_under
 from ..cfg import CFG
 from .. import flow
 from ..core import kwarg
@@ -85,6 +85,7 @@ def run(prog, rep):
         raise AnalysisError('InstanceCatalog no longer loads data/instance_sizes.json')
 
     # R1
+    mp = inline(prog, icat, mp, exclude=('__read_catalog',))
     filt = None
     for n in walk_no_nested(mp):
         if isinstance(n, ast.Call) and isinstance(n.func, ast.Name) and n.func.id == 'filter' and n.args and \
@@ -339,32 +340,49 @@ def run(prog, rep):
                 rep.violation('R3', loc(cmod, u), gq, f'{norm(u)} nested under "{other}"',
                               f'{pname} is only applied when the other list is supplied too: a caller who passes '
                               f'{pname} alone has it silently ignored')
-    # interface kind dispatch covers the catalogue types that have interfaces
+    # interface kind dispatch covers the catalogue types that have interfaces: the argument of set_type on the generated
+    # interfaces, evaluated under the assumption "the component is of type T" (if/elif chains, tables, temporaries alike)
     disp = {}
-    aenv = {k_: v_ for k_, v_ in local_env(gc).items() if isinstance(v_, (ast.Name, ast.Attribute, ast.Subscript, ast.Call)) and
-            (not isinstance(v_, ast.Call) or call_name(v_) in ('get_type',))}
-
-    def types_of(cond):
-        """component types a (non-negated) condition selects"""
-        c = canon(expand(cond, aenv))
-        out = []
-        for cj in conjuncts(c):
-            if isinstance(cj, ast.Compare) and len(cj.ops) == 1 and isinstance(cj.ops[0], (ast.Eq, ast.In)) and \
-                    any(isinstance(x, ast.Call) and call_name(x) == 'get_type' for x in ast.walk(cj)):
-                out += [a.attr for a in ast.walk(cj) if isinstance(a, ast.Attribute) and isinstance(a.value, ast.Name) and a.value.id == 'ComponentType']
-        return out
-    for n in ast.walk(gc):
-        kinds = []
-        if isinstance(n, ast.Call) and call_name(n) == 'set_type' and n.args:
-            kinds = [a.attr for a in ast.walk(n.args[0]) if isinstance(a, ast.Attribute) and isinstance(a.value, ast.Name) and a.value.id == 'InterfaceType']
-        elif isinstance(n, ast.Assign) and isinstance(n.value, ast.Attribute) and isinstance(n.value.value, ast.Name) and n.value.value.id == 'InterfaceType':
-            kinds = [n.value.attr]
-        if not kinds:
-            continue
-        _, conds_ = _enclosing(n, gc)
-        for c_ in conds_:
-            for t in types_of(c_):
-                disp[t] = kinds[0]
+    gci = inline(prog, ccat, gc, exclude=('__read_catalog',))
+    genv_ = {k_: v_ for k_, v_ in local_env(gci).items() if isinstance(v_, (ast.Name, ast.Attribute, ast.Subscript)) or
+             (isinstance(v_, ast.Call) and call_name(v_) in ('get_type',))}
+    fold_c = lambda e_: prog.const_eval(e_, cmod, ccat)
+    type_exprs = sorted({ctext(x) for x in ast.walk(gci) if isinstance(x, ast.Call) and call_name(x) == 'get_type' and not x.args})
+    ctypes = prog.enum_members('fim.slivers.attached_components:ComponentType')
+    iloops = [n for n in walk_no_nested(gci) if isinstance(n, ast.For) and 'interfaces_dict' in ast.unparse(n.iter)]
+    st_calls = [c for l_ in iloops for c in ast.walk(l_) if isinstance(c, ast.Call) and call_name(c) == 'set_type' and c.args]
+    for T in ctypes:
+        bind = {te: prog.const_eval(ast.parse(f'ComponentType.{T}', mode='eval').body, cmod, ccat) for te in type_exprs}
+        kinds = set()
+        for c in st_calls:
+            _, conds_ = _enclosing(c, gci)
+            try:
+                holds = True
+                for n_ in conds_:
+                    n2 = canon(expand(n_, genv_))
+                    names_ = [x for x in ast.walk(n2) if isinstance(x, ast.Name)]
+                    if any(ctext(x) in bind for x in ast.walk(n2)):
+                        if not eval_test(n2, bind, fold_c):
+                            holds = False
+                            break
+                    elif isinstance(n2, ast.Compare) and isinstance(n2.left, ast.Name) and isinstance(n2.ops[0], (ast.Is, ast.IsNot)):
+                        # `port_type is not None` on a temporary: evaluate the temporary under the assumption
+                        try:
+                            v_ = value_under(n2.left, bind, fold_c, genv_, gci)
+                            if (v_ is None) != isinstance(n2.ops[0], ast.Is):
+                                holds = False
+                                break
+                        except Unknown:
+                            pass
+                if not holds:
+                    continue
+                v = value_under(c.args[0], bind, fold_c, genv_, gci)
+                if v is not None:
+                    kinds.add(getattr(v, 'name', str(v)))
+            except Unknown:
+                kinds.add('?')
+        if kinds:
+            disp[T] = sorted(kinds)[0] if len(kinds) == 1 else '|'.join(sorted(kinds))
     rep.instance('R3', f'{gq}: interface kind dispatch {disp}; catalogue types with interfaces {sorted(types_with_ifs)}')
     for t in sorted(types_with_ifs):
         if t not in disp:
